@@ -211,7 +211,7 @@ def main():
         })
     m = {
         "version": 1,
-        "setup_cmd": "cd /verif/harness && cargo build --release --offline && cd /verif && for f in spec/*.tla; do tla-sany $f >/dev/null || exit 1; done",
+        "setup_cmd": "cd /verif/harness && cargo build --release --offline && cd /verif/spec && for f in *.tla; do tla-sany $f >/dev/null || exit 1; done",
         "hooks": {
             "guard": "verif-hooks (cargo feature of rust-rule-engine, off by default)",
             "enable": "the harness crate /verif/harness depends on /repo by path with features backward-chaining, streaming and (once hooks exist) verif-hooks; every check runs `cargo build --release --offline` there first, which rebuilds the engine from /repo's working tree",
